@@ -25,7 +25,7 @@ import (
 	. "verifharness/kit"
 )
 
-func main() { Main("C13", checkC13, iogen.Gen) }
+func main() { Main("C13", checkC13, iogen.Gen, stateGen) }
 
 type tri = [3][3]float64
 
